@@ -333,7 +333,11 @@ impl Ingester {
                         return Err(e);
                     }
                 };
+                #[cfg(feature = "verif_hooks")]
+                crate::verif_hooks::pause_point("ingest.write.after_wal_append").await;
                 self.last_wal_seq.store(seq, Ordering::Release);
+                #[cfg(feature = "verif_hooks")]
+                crate::verif_hooks::pause_point("ingest.write.after_seq_store").await;
             } else if self.config.wal.enabled {
                 telemetry::record_wal_operation("append", "error");
                 if !self.wal_warned.swap(true, Ordering::Relaxed) {
@@ -671,6 +675,8 @@ impl Ingester {
             size_bytes: parquet_size,
         };
         self.metadata.register_chunk(&path, &chunk_metadata).await?;
+        #[cfg(feature = "verif_hooks")]
+        crate::verif_hooks::pause_point("ingest.flush.after_register").await;
 
         // Broadcast to streaming query subscribers (legacy)
         if let Err(e) = self.broadcast.send(combined.clone()) {
@@ -694,6 +700,8 @@ impl Ingester {
 
         // Truncate WAL after successful flush
         let flushed_up_to = self.last_wal_seq.load(Ordering::Acquire);
+        #[cfg(feature = "verif_hooks")]
+        crate::verif_hooks::pause_point("ingest.flush.after_load_seq").await;
         if flushed_up_to > 0 {
             if let Some(wal) = self.wal.as_ref() {
                 if let Err(e) = wal.lock().await.truncate_before(flushed_up_to).await {
@@ -702,6 +710,8 @@ impl Ingester {
                 }
                 telemetry::record_wal_operation("truncate", "ok");
             }
+            #[cfg(feature = "verif_hooks")]
+            crate::verif_hooks::pause_point("ingest.flush.after_truncate").await;
             self.last_flushed_seq
                 .store(flushed_up_to, Ordering::Release);
             if let Err(e) = persist_flushed_seq(&self.config.wal.wal_dir, flushed_up_to) {
@@ -710,6 +720,8 @@ impl Ingester {
             } else {
                 telemetry::record_wal_operation("persist_flushed_seq", "ok");
             }
+            #[cfg(feature = "verif_hooks")]
+            crate::verif_hooks::pause_point("ingest.flush.after_persist").await;
         }
 
         // Update last flush time
